@@ -166,3 +166,63 @@ func TestKnown_first_use_init_race(t *testing.T) {
 	rec.Known(t, "TestKnown_first_use_init_race", knownInitRace, reproduced, detail,
 		map[string]any{"schedule": "A: init() CAS 0->1 | B: init() returns; store := c.store (emptyStore); emptyStore.write drops values, returns nil | A: c.store = newring()"})
 }
+
+const knownReadStaleSnapshot = "read-combines-cleared-snapshot-with-later-write"
+
+// Cache.Values(k) looks up the hot and the snapshot entry under Cache.mu and reads their values
+// after releasing it: a ClearSnapshot(true) followed by a WriteMulti to k in between gives a
+// result that holds the (cleared) snapshot's values together with the later write, a union that
+// never existed. Found by the porcupine-checked histories under heavy machine load (1 of ~250000
+// histories); here the window is widened by an unsorted 30000-value snapshot entry, which the
+// read sorts after releasing the lock.
+func TestKnown_read_combines_cleared_snapshot_with_later_write(t *testing.T) {
+	const N = 30_000
+	reproduced := false
+	var detail string
+	k := "k"
+	base := make([]tsm1.Value, N)
+	for i := range base {
+		base[i] = tsm1.NewIntegerValue(int64(10+N-i), 1) // descending: the entry needs sorting
+	}
+	spin := 0
+	for attempt := 0; attempt < 200 && !reproduced; attempt++ {
+		c := tsm1.NewCache(0, tsdb.EngineTags{})
+		_ = c.WriteMulti(map[string][]tsm1.Value{k: base})
+		if _, err := c.Snapshot(); err != nil {
+			t.Fatal(err)
+		}
+		_ = c.WriteMulti(map[string][]tsm1.Value{k: {tsm1.NewIntegerValue(1, 2)}})
+		var got tsm1.Values
+		var wg sync.WaitGroup
+		started := make(chan struct{})
+		wg.Add(1)
+		go func() {
+			defer wg.Done()
+			close(started)
+			got = c.Values([]byte(k))
+		}()
+		<-started
+		for i := 0; i < (attempt%40)*2000; i++ {
+			spin++
+		}
+		c.ClearSnapshot(true)
+		_ = c.WriteMulti(map[string][]tsm1.Value{k: {tsm1.NewIntegerValue(2, 3)}})
+		wg.Wait()
+		hasSnap, hasLater := false, false
+		for _, v := range got {
+			switch {
+			case v.UnixNano() >= 10:
+				hasSnap = true
+			case v.UnixNano() == 2:
+				hasLater = true
+			}
+		}
+		if hasSnap && hasLater {
+			reproduced = true
+			detail = fmt.Sprintf("snapshot holds ts 11..%d of k, hot holds ts 1; Values(k) concurrent with ClearSnapshot(true); WriteMulti{k:[ts 2]} returned %d values holding the snapshot's values AND ts 2 (written after the snapshot was cleared)", 10+N, len(got))
+		}
+	}
+	_ = spin
+	rec.Known(t, "TestKnown_read_combines_cleared_snapshot_with_later_write", knownReadStaleSnapshot, reproduced, detail,
+		map[string]any{"schedule": "R: look up hot+snapshot entries, release Cache.mu | C: ClearSnapshot(true) | W: append to the hot entry | R: copy snapshot entry, copy hot entry"})
+}
